@@ -31,7 +31,8 @@ Section P.
         destruct (get_string msg 0) as [nm p1]. destruct (utf8_ok nm); [|discriminate].
         destruct (negb (zlist_eqb nm (ecdsa_ident c))); [discriminate|].
         destruct (get_string msg p1) as [sig ?]. destruct (get_string sig 0) as [rb q1].
-        destruct (get_string sig q1) as [sb ?].
+        destruct (get_string sig q1) as [sb q2].
+        destruct (negb match get_remainder sig q2 with [] => true | _ => false end); [discriminate|].
         destruct ((inflate_long rb false <? 0) || (inflate_long sb false <? 0)); discriminate.
       + unfold ed_step, get_text in E.
         destruct (get_string msg 0) as [nm p1]. destruct (utf8_ok nm); [|discriminate].
@@ -85,7 +86,8 @@ Section P.
       destruct (utf8_ok nm); [|discriminate].
       destruct (negb (zlist_eqb nm (ecdsa_ident c))); [discriminate|].
       destruct (get_string msg p1) as [sig ?]. destruct (get_string sig 0) as [rb q1].
-      destruct (get_string sig q1) as [sb ?].
+      destruct (get_string sig q1) as [sb q2].
+      destruct (negb match get_remainder sig q2 with [] => true | _ => false end); [discriminate|].
       destruct ((inflate_long rb false <? 0) || (inflate_long sb false <? 0)); [discriminate|].
       intros H. injection H as <-. reflexivity.
     - unfold ed_step, get_text. destruct (get_string msg 0) as [nm p1].
@@ -112,7 +114,8 @@ Section P.
         destruct (utf8_ok nm); [|discriminate].
         destruct (negb (zlist_eqb nm (ecdsa_ident c))); [discriminate|].
         destruct (get_string msg p1) as [sig ?]. destruct (get_string sig 0) as [rb q1].
-        destruct (get_string sig q1) as [sb ?].
+        destruct (get_string sig q1) as [sb q2].
+        destruct (negb match get_remainder sig q2 with [] => true | _ => false end); [discriminate|].
         destruct ((inflate_long rb false <? 0) || (inflate_long sb false <? 0)); discriminate.
       + unfold ed_step, get_text in E. destruct (get_string msg 0) as [nm p1].
         destruct (utf8_ok nm); [|discriminate].
@@ -142,13 +145,13 @@ Section P.
   Lemma two_mpints r s bs :
     encode_all [FMpint r; FMpint s] = Ok bs ->
     exists rb sb p1 p2, get_string bs 0 = (rb, p1) /\ get_string bs p1 = (sb, p2) /\
-                        inflate_long rb false = r /\ inflate_long sb false = s.
+                        inflate_long rb false = r /\ inflate_long sb false = s /\ p2 = length bs.
   Proof.
     intros He.
     pose proof (roundtrip [FMpint r; FMpint s] bs [] eq_refl He) as R.
     rewrite app_nil_r in R. cbn [map kind_of decode_all decode_field] in R.
     destruct (get_string bs 0) as [s1 p1] eqn:G1. destruct (get_string bs p1) as [s2 p2] eqn:G2.
-    injection R as E1 E2 _. exists s1, s2, p1, p2. auto.
+    injection R as E1 E2 E3. exists s1, s2, p1, p2. auto.
   Qed.
 
   Lemma encode_all_bytes_ok fs bs :
@@ -275,11 +278,12 @@ Section P.
         destruct (c1 =? 1); vm_compute; auto. }
       destruct Hid as [Hidb Hida].
       destruct (two_strings _ _ _ Hidb Hib Hsign) as (p1 & p2 & G1 & G2).
-      destruct (two_mpints _ _ _ Ei) as (rb & sb & q1 & q2 & M1 & M2 & Mr & Ms).
+      destruct (two_mpints _ _ _ Ei) as (rb & sb & q1 & q2 & M1 & M2 & Mr & Ms & Mq).
       cbn [verify_step]. unfold ecdsa_step, get_text.
       rewrite G1, (Hascii _ Hida).
       assert (Hz : zlist_eqb (ecdsa_ident c1) (ecdsa_ident c1) = true) by (apply zlist_eqb_eq; reflexivity).
       rewrite Hz. cbn [negb]. rewrite G2, M1, M2, Mr, Ms.
+      unfold get_remainder. rewrite Mq, skipn_all. cbn [negb].
       destruct (Sec sk data) as [Hr Hs]. rewrite Es in Hr, Hs. cbn [fst snd] in Hr, Hs.
       assert (Hn : ((r <? 0) || (s <? 0)) = false) by lia. rewrite Hn.
       cbn [key_pub] in Hp2. injection Hp2 as ->.
